@@ -90,3 +90,37 @@ Theorem C11_state_after_catch_monotone : forall n c c',
   steps n c = inl c' -> mono (sto c) (sto c').
 Proof. exact steps_mono. Qed.
 Print Assumptions C11_state_after_catch_monotone.
+
+(* coroutine.resume is a boundary too: the error stops at the coroutine's bottom frame,
+   the resumer's state is untouched, the coroutine is dead ... *)
+Theorem C11_error_stops_at_coroutine_boundary : forall k1 id saved k2 v σ tr ln cs,
+  forallb passes_error k1 = true ->
+  steps (length k1 + 1) (mkCfg (COut (OError v)) (k1 ++ KCoBottom id saved :: k2) σ tr ln cs) =
+  inl (mkCfg (CRet [VBool false; v]) k2 σ tr saved
+             (mkCot (FMapPositive.PositiveMap.add id CoDead (cos cs)) (nco cs))).
+Proof. exact error_stops_at_coroutine_boundary. Qed.
+Print Assumptions C11_error_stops_at_coroutine_boundary.
+
+(* ... and no message handler of an xpcall further out runs for it (golua violates this:
+   known finding C11-xpcall-handler-sees-coroutine-error) *)
+Theorem C11_raise_in_coroutine_no_outer_handler : forall k1 id saved k2 v σ tr ln cs,
+  forallb plain_frame k1 = true ->
+  steps (S (length k1 + 1)) (mkCfg (CRaise v) (k1 ++ KCoBottom id saved :: k2) σ tr ln cs) =
+  inl (mkCfg (CRet [VBool false; v]) k2 σ tr saved
+             (mkCot (FMapPositive.PositiveMap.add id CoDead (cos cs)) (nco cs))).
+Proof. exact raise_in_coroutine_no_outer_handler. Qed.
+Print Assumptions C11_raise_in_coroutine_no_outer_handler.
+
+(* to-be-closed scopes on the way: the closing method sees the error in flight, and the
+   same error is in flight again when it returns *)
+Theorem C11_scope_exit_by_error_calls_close : forall v e h k σ tr ln cs,
+  metamethod σ v ev_close = h -> h <> VNil ->
+  step (mkCfg (COut (OError e)) (KScope v :: k) σ tr ln cs) =
+  inl (mkCfg (CCall h [v; e] true) (KClosing (POut (OError e)) :: k) σ tr ln cs).
+Proof. exact scope_exit_by_error_calls_close. Qed.
+Print Assumptions C11_scope_exit_by_error_calls_close.
+
+Theorem C11_closing_done_resumes_exit : forall vs o k σ tr ln cs,
+  step (mkCfg (CRet vs) (KClosing (POut o) :: k) σ tr ln cs) = inl (mkCfg (COut o) k σ tr ln cs).
+Proof. exact closing_done_resumes_exit. Qed.
+Print Assumptions C11_closing_done_resumes_exit.
